@@ -16,6 +16,8 @@ import time
 
 VERIF = os.path.dirname(os.path.dirname(os.path.dirname(os.path.abspath(__file__))))
 FINDINGS_FILE = os.path.join(VERIF, "known_findings.json")
+# where replays/ and evidence/ are written: /verif, unless a scratch run (seeded change on a copy of the tree) redirects it
+OUT = os.environ.get("VERIF_OUT_DIR") or VERIF
 
 
 class Res:
@@ -161,7 +163,7 @@ class Ctx:
         rc = 0
         replay_paths = []
         if new:
-            d = os.path.join(VERIF, "replays", self.pid)
+            d = os.path.join(OUT, "replays", self.pid)
             os.makedirs(d, exist_ok=True)
             for sig in new:
                 v = self._viol[sig]
@@ -219,8 +221,8 @@ class Ctx:
             "wall_s": round(self.elapsed(), 2),
             "violations": int(n_new),
         }
-        os.makedirs(os.path.join(VERIF, "evidence"), exist_ok=True)
-        path = os.path.join(VERIF, "evidence", f"{self.pid}.json")
+        os.makedirs(os.path.join(OUT, "evidence"), exist_ok=True)
+        path = os.path.join(OUT, "evidence", f"{self.pid}.json")
         tmp = path + ".tmp"
         with open(tmp, "w") as f:
             json.dump(ev, f, indent=1)
